@@ -2,6 +2,8 @@ package grandpa
 
 import (
 	"fmt"
+	"runtime"
+	"strings"
 
 	"github.com/ChainSafe/gossamer/dot/network"
 	"github.com/ChainSafe/gossamer/dot/types"
@@ -34,6 +36,11 @@ func runGrandpa(k *kernel.K) {
 	// (pending changes live in memory only, so no restarts in these runs)
 	s.authChanges = k.Prop == "C21" && !s.real && k.Bool(1, 5, "authority-changes")
 	if s.authChanges {
+		s.crashes = false
+	}
+	// a quarter of the C18 runs: the authority set changes for real during the run (no restarts in these)
+	s.setChanges = k.Prop == "C18" && k.Bool(1, 4, "authority-set-changes")
+	if s.setChanges {
 		s.crashes = false
 	}
 	maxByz := (s.n - 1) / 3
@@ -141,7 +148,9 @@ func runGrandpa(k *kernel.K) {
 			}
 			k.Event("sync", "n%d", n.id)
 		default:
-			if k.Bool(1, 4, "partition-or-heal") {
+			if s.setChanges && k.Bool(1, 2, "change-authority-set") {
+				s.changeSet()
+			} else if k.Bool(1, 4, "partition-or-heal") {
 				s.partition()
 			} else if s.crashes && k.Bool(1, 2, "crash") {
 				n := s.pickHonest("crash-node")
@@ -558,7 +567,7 @@ func (n *gnode) deliverVote(w wire, m *gp.VoteMessage) {
 	switch {
 	case !validSig(id, m.Message.Signature, m.Message.Stage, vote, m.Round, m.SetID):
 		reason = "bad-signature"
-	case !s.isAuthority(id):
+	case !n.isAuthNow(id):
 		reason = "non-authority"
 	case m.SetID != svc.VerifSetID():
 		reason = "wrong-set"
@@ -676,7 +685,7 @@ func (n *gnode) commitPredicate(m *gp.CommitMessage) (holds bool, supporters int
 		a := m.AuthData[i]
 		p := m.Precommits[i]
 		blk := s.ref.Blocks[p.Hash]
-		ok := s.isAuthority(a.AuthorityID) && validSig(a.AuthorityID, a.Signature, gp.VerifPrecommit, p, m.Round, n.svc.VerifSetID())
+		ok := n.isAuthNow(a.AuthorityID) && validSig(a.AuthorityID, a.Signature, gp.VerifPrecommit, p, m.Round, n.svc.VerifSetID())
 		if !ok || blk == nil || blk.Number != uint(p.Number) || !n.has[p.Hash] {
 			clean = false
 		}
@@ -704,7 +713,7 @@ func (n *gnode) commitPredicate(m *gp.CommitMessage) (holds bool, supporters int
 			supporters++
 		}
 	}
-	return s.threshold2of3(supporters), supporters, clean
+	return n.supermajorityNow(supporters), supporters, clean
 }
 
 func (n *gnode) deliverCommit(w wire, m *gp.CommitMessage) {
@@ -725,16 +734,16 @@ func (n *gnode) deliverCommit(w wire, m *gp.CommitMessage) {
 		}
 		if !holds {
 			class := "commit-without-supermajority-accepted"
-			if 3*supporters == 2*s.n {
+			if 3*supporters == 2*len(n.curSet()) {
 				class = "commit-with-exactly-two-thirds-accepted"
 			}
-			k.Violate("C18", "commit", class, "node %d finalised %s from a commit message of round %d with %d entries of which only %d of %d authorities validly precommitted to the target or a descendant (or validly equivocated)", n.id, cu.Short(m.Vote.Hash), m.Round, len(m.Precommits), supporters, s.n)
+			k.Violate("C18", "commit", class, "node %d finalised %s from a commit message of round %d with %d entries of which only %d of %d authorities validly precommitted to the target or a descendant (or validly equivocated)", n.id, cu.Short(m.Vote.Hash), m.Round, len(m.Precommits), supporters, len(n.curSet()))
 		}
 		return
 	}
 	if !holds {
 		k.Probe("commit-short-of-supermajority-rejected")
-		if 3*supporters == 2*s.n || 3*(supporters+1) > 2*s.n {
+		if 3*supporters == 2*len(n.curSet()) || 3*(supporters+1) > 2*len(n.curSet()) {
 			k.Probe("commit-rejected-one-short")
 		}
 	}
@@ -744,4 +753,101 @@ func (n *gnode) deliverCommit(w wire, m *gp.CommitMessage) {
 	if holds && clean && targetOK && !roundDone && m.Vote.Hash != before && err == nil {
 		k.Violate("C18", "commit", "valid-commit-not-finalised", "node %d accepted a valid commit for %s without finalising it", n.id, cu.Short(m.Vote.Hash))
 	}
+}
+
+// changeSet: what the digest handler does when a scheduled change is applied - the authorities of the
+// next set and the incremented set id go into every honest node's GRANDPA state; each voter picks the
+// change up when it starts its next round. Honest voters stay, each Byzantine key is dropped or kept.
+func (s *gsim) changeSet() {
+	k := s.k
+	ref := s.honest()[0]
+	curID, err := ref.gs.GetCurrentSetID()
+	if err != nil {
+		panic(err)
+	}
+	cur := ref.sets[curID]
+	var next []int
+	changed := false
+	for _, i := range cur {
+		if s.byz[i] && k.Bool(1, 2, "drop-byzantine-authority") {
+			changed = true
+			continue
+		}
+		next = append(next, i)
+	}
+	if !changed || len(next) == 0 {
+		return
+	}
+	var voters []types.GrandpaVoter
+	for _, i := range next {
+		voters = append(voters, types.GrandpaVoter{Key: *s.keys[i].Public().(*ed25519.PublicKey), ID: uint64(i)})
+	}
+	for _, n := range s.honest() {
+		fh, _ := n.bs.GetHighestFinalisedHeader()
+		if err := n.gs.SetNextChange(voters, fh.Number+1); err != nil {
+			panic(err)
+		}
+		id, err := n.gs.IncrementSetID()
+		if err != nil {
+			panic(err)
+		}
+		n.sets[id] = next
+	}
+	k.Fault("authority-set-change")
+	k.Event("set-change", "set %d -> %d: %d of %d authorities remain", curID, curID+1, len(next), len(cur))
+}
+
+// seamInsideUpdateAuthorities: while a voter switches to a new authority set (updateAuthorities reads
+// the new authorities from its GRANDPA state, holding no lock), a commit or vote that is in flight to
+// it may be handled right there, as its network goroutine would.
+func (n *gnode) seamInsideUpdateAuthorities() {
+	s := n.s
+	if !s.setChanges || s.inSeam {
+		return
+	}
+	var pcs [24]uintptr
+	cnt := runtime.Callers(3, pcs[:])
+	frames := runtime.CallersFrames(pcs[:cnt])
+	stateFrame, inside := "", false
+	for {
+		f, more := frames.Next()
+		if stateFrame == "" && strings.Contains(f.Function, "/dot/state.") {
+			stateFrame = f.Function
+			if !strings.HasSuffix(stateFrame, ").GetAuthorities") {
+				return
+			}
+		} else if stateFrame != "" {
+			inside = strings.HasSuffix(f.Function, "grandpa.(*Service).updateAuthorities")
+			break
+		}
+		if !more {
+			break
+		}
+	}
+	if !inside {
+		return
+	}
+	var mine, commits []int
+	for i, w := range s.pending {
+		if w.to == n.id {
+			mine = append(mine, i)
+			if strings.Contains(w.what, "commit") {
+				commits = append(commits, i)
+			}
+		}
+	}
+	if len(commits) > 0 {
+		mine = commits // a commit makes the voter look at its authority set
+	}
+	if len(mine) == 0 || !s.k.Bool(2, 3, "deliver-inside-update-authorities") {
+		return
+	}
+	i := mine[s.k.Choose(len(mine), "seam-message")]
+	w := s.pending[i]
+	s.pending = append(s.pending[:i], s.pending[i+1:]...)
+	s.inSeam = true
+	_, err := n.svc.VerifHandleNetworkBytes(peerOf(w.from), w.raw)
+	s.inSeam = false
+	s.k.Fault("message-handled-inside-update-authorities")
+	s.k.Event("deliver-inside-update-authorities", "n%d<-%d %s err=%v", n.id, w.from, w.what, err != nil)
 }
